@@ -5,4 +5,5 @@ import PyXABModel.Model.FloatInst
 import PyXABModel.Model.TreeBandit
 import PyXABModel.Model.Sweep
 import PyXABModel.Model.SequOOL
+import PyXABModel.Model.Meta
 import PyXABModel.Drv.Main
